@@ -388,3 +388,181 @@ Definition finalize (l : list Qc) : cval :=
   | [] => CVector []
   | a :: l' => if all_eqb a l' then CScalar a else CVector l      (* len(np.unique(value)) > 1 -> unchanged *)
   end.
+
+(* ========================================================================================== multi-operator nodes
+   A node type = a LIST of operators, each with its own state variable x, parameter k, input r (declared default) and
+   optional algebraic output m = g(x,k); `ofeed` = positions of the operators of the same node whose output x feeds this
+   operator's input by name (summed), such an operator receives no edges.
+   - structural key of a node = the list of operator structures: operator names and values are not in it, the
+     multiplicity and order are (OperatorGraph.__hash__ = hash(tuple(operators.values())), fix against seed C04-m2);
+     `canon` = first declared type with the same structure list;
+   - cache_func (ir/node.py:60-90, fix D58): the operators of a node that is merged into a cached node are matched, in
+     order, with the first not yet taken cached operator of the same structure (`match_ops`), and the operator keys of the
+     node's values are renamed ONCE, simultaneously (`rename_names`); append_values then extends the cached operator's
+     value lists by key; _vectorization_labels maps `node/op` to `cached node/cached op`;
+   - the frontend variable (node n, operator o) therefore lives at unit i of the vector variable (vector node j, cached
+     operator position `vpos`), and the value of vector variable (j, p) at unit i is that of operator `fpos` of the i-th
+     member; edges are grouped per (source vector variable, source variable kind, target vector variable) and realised by
+     the SAME pipeline as above (group_edges, merged, contrib, input_of), with frontend variables flattened to numbers
+     (`voff c n + o`) and a vector variable named by the flattened number of the cached node's variable.
+   The code modelled is the current one (D46, D57, D58, D59, D85, D86 included): no Err outcome. *)
+Record opr := Opr { of_ : poly; og : option poly; ordef : Qc; ofeed : list nat }.
+Record mnode := MNode { mncls : nat; mnames : list nat; mnk : list Qc }.
+Record medge := MEdge { mesrc : nat; meso : nat; mesv : bool; metgt : nat; meto : nat; mewo : option Qc }.
+Record mcircuit := MCirc { mccls : list (list opr); mcnodes : list mnode; mcedges : list medge }.
+
+Definition dopr : opr := Opr [] None 0 [].
+Definition dmnode : mnode := MNode 0 [] [].
+Definition mn (c : mcircuit) (n : nat) : mnode := nth n (mcnodes c) dmnode.
+Definition cops (c : mcircuit) (ci : nat) : list opr := nth ci (mccls c) [].
+Definition mops (c : mcircuit) (n : nat) : list opr := cops c (mncls (mn c n)).
+Definition mop (c : mcircuit) (n o : nat) : opr := nth o (mops c n) dopr.
+Definition mnops (c : mcircuit) (n : nat) : nat := length (mops c n).
+
+(* flattening of (node, operator position) *)
+Fixpoint sum_first (ls : list nat) (n : nat) : nat :=
+  match n, ls with S n', a :: ls' => (a + sum_first ls' n')%nat | _, _ => 0%nat end.
+Definition oplens (c : mcircuit) : list nat := map (fun nd => length (cops c (mncls nd))) (mcnodes c).
+Definition voff (c : mcircuit) (n : nat) : nat := sum_first (oplens c) n.
+Definition nvars (c : mcircuit) : nat := voff c (length (mcnodes c)).
+Fixpoint unflat_l (ls : list nat) (v n : nat) : nat * nat :=
+  match ls with [] => (n, v) | a :: ls' => if v <? a then (n, v) else unflat_l ls' (v - a) (S n) end.
+Definition unflat (c : mcircuit) (v : nat) : nat * nat := unflat_l (oplens c) v 0.
+
+Definition mvar_x (c : mcircuit) (st : list Qc) (n o : nat) : Qc := nth (voff c n + o) st 0.
+Definition mpar (c : mcircuit) (n o : nat) : Qc := nth o (mnk (mn c n)) 0.
+Definition msrcval (c : mcircuit) (st : list Qc) (n o : nat) (sv : bool) : Qc :=
+  if sv then match og (mop c n o) with
+             | Some g => peval g (mvar_x c st n o) (mpar c n o) 0
+             | None => mvar_x c st n o
+             end
+  else mvar_x c st n o.
+
+(* ---- Spec *)
+Definition mew (e : medge) : Qc := match mewo e with Some w => w | None => 1 end.
+Definition minto (n o : nat) (e : medge) : bool := (metgt e =? n) && (meto e =? o).
+Definition mspec_input (c : mcircuit) (st : list Qc) (n o : nat) : Qc :=
+  match ofeed (mop c n o) with
+  | [] => match filter (minto n o) (mcedges c) with
+          | [] => ordef (mop c n o)
+          | inc => qsum (map (fun e => mew e * msrcval c st (mesrc e) (meso e) (mesv e)) inc)
+          end
+  | fd => qsum (map (fun o' => mvar_x c st n o') fd)
+  end.
+Definition mderiv (c : mcircuit) (st : list Qc) (n o : nat) (r : Qc) : Qc :=
+  peval (of_ (mop c n o)) (mvar_x c st n o) (mpar c n o) r.
+Definition mspec (c : mcircuit) (st : list Qc) : list Qc :=
+  flat_map (fun n => map (fun o => mderiv c st n o (mspec_input c st n o)) (seq 0 (mnops c n))) (seq 0 (length (mcnodes c))).
+
+(* ---- Impl *)
+Definition mono_eqb (a b : mono) : bool := Qc_eqb (mc a) (mc b) && (mx a =? mx b) && (mk a =? mk b) && (mr a =? mr b).
+Fixpoint list_eqb {A} (f : A -> A -> bool) (a b : list A) : bool :=
+  match a, b with [], [] => true | x :: a', y :: b' => f x y && list_eqb f a' b' | _, _ => false end.
+Definition opt_eqb {A} (f : A -> A -> bool) (a b : option A) : bool :=
+  match a, b with Some x, Some y => f x y | None, None => true | _, _ => false end.
+Definition opr_eqb (a b : opr) : bool :=
+  list_eqb mono_eqb (of_ a) (of_ b) && opt_eqb (list_eqb mono_eqb) (og a) (og b) && Qc_eqb (ordef a) (ordef b) &&
+  list_eqb Nat.eqb (ofeed a) (ofeed b).
+Definition ops_eqb : list opr -> list opr -> bool := list_eqb opr_eqb.
+
+(* the structural hash: the first declared type with the same list of operator structures *)
+Fixpoint first_same (l : list opr) (cl : list (list opr)) (p : nat) : nat :=
+  match cl with [] => p | l' :: rest => if ops_eqb l' l then p else first_same l rest (S p) end.
+Definition canon (c : mcircuit) (ci : nat) : nat := first_same (cops c ci) (mccls c) 0.
+Definition mkeys (vec : bool) (c : mcircuit) : list nat :=
+  if vec then map (fun nd => canon c (mncls nd)) (mcnodes c) else seq 0 (length (mcnodes c)).
+
+(* cache_func: matching of the operators of a node with those of the cached node *)
+Fixpoint first_free (s : opr) (cached : list opr) (taken : list nat) (p : nat) : option nat :=
+  match cached with
+  | [] => None
+  | t :: rest => if opr_eqb s t && negb (mem p taken) then Some p else first_free s rest taken (S p)
+  end.
+Fixpoint match_ops (ops cached : list opr) (taken : list nat) : list (option nat) :=
+  match ops with
+  | [] => []
+  | s :: rest => match first_free s cached taken 0 with
+                 | Some p => Some p :: match_ops rest cached (p :: taken)
+                 | None => None :: match_ops rest cached taken
+                 end
+  end.
+(* fix D58: every operator key of the node's values is replaced once, simultaneously: new key of the o-th operator *)
+Fixpoint rename_with (names : list nat) (pos : list (option nat)) (cnames : list nat) : list nat :=
+  match names, pos with
+  | a :: names', Some p :: pos' => nth p cnames a :: rename_with names' pos' cnames
+  | a :: names', None :: pos' => a :: rename_with names' pos' cnames
+  | _, _ => []
+  end.
+Definition rename_names (c : mcircuit) (n0 n : nat) : list nat :=
+  rename_with (mnames (mn c n)) (match_ops (mops c n) (mops c n0) []) (mnames (mn c n0)).
+
+Fixpoint index_of (a : nat) (l : list nat) : nat :=
+  match l with [] => 0%nat | b :: l' => if a =? b then 0%nat else S (index_of a l') end.
+
+(* operator o of node n -> position of its (renamed) key among the cached node's operators; and back *)
+Definition vpos (c : mcircuit) (n0 n o : nat) : nat :=
+  if n0 =? n then o else index_of (nth o (rename_names c n0 n) 0%nat) (mnames (mn c n0)).
+Definition fpos (c : mcircuit) (n0 n p : nat) : nat :=
+  if n0 =? n then p else index_of (nth p (mnames (mn c n0)) 0%nat) (rename_names c n0 n).
+
+Record mcompiled := MCompiled { mvn : list vnode; mixn : nat -> nat * nat }.
+Definition mcompile (vec : bool) (c : mcircuit) : mcompiled :=
+  let '(vn, rs) := cache_all [] (mkeys vec c) 0 in MCompiled vn (idx_of rs).
+Definition cached (k : mcompiled) (j : nat) : nat := hd 0%nat (members (mvn k) j).
+
+(* variable-level index map, members, valuation, edges *)
+Definition vix (c : mcircuit) (k : mcompiled) (v : nat) : nat * nat :=
+  let '(n, o) := unflat c v in
+  let '(j, i) := mixn k n in
+  let n0 := cached k j in
+  ((voff c n0 + vpos c n0 n o)%nat, i).
+Definition vmemb (c : mcircuit) (k : mcompiled) (J : nat) : list nat :=
+  let '(n0, p) := unflat c J in
+  map (fun n => (voff c n + fpos c n0 n p)%nat) (members (mvn k) (fst (mixn k n0))).
+Definition vval (c : mcircuit) (st : list Qc) (v : nat) (sv : bool) : Qc :=
+  let '(n, o) := unflat c v in msrcval c st n o sv.
+Definition vedge (c : mcircuit) (e : medge) : edge :=
+  Edge (voff c (mesrc e) + meso e) (voff c (metgt e) + meto e) (mewo e) (mesv e).
+Definition vedges (c : mcircuit) : list edge := map (vedge c) (mcedges c).
+
+Definition contrib_now (tsize ssize : nat) (m : mrg) (sval : nat -> Qc) : assoc :=
+  let tr := zip3 (mw m) (ms m) (mt m) in
+  if dot_edge tsize ssize (mt m) then contrib_dot tr sval else contrib_idx tr sval.
+
+(* inputs of all units of the vector variable J (an operator without feeders) *)
+Definition minputs (vec : bool) (c : mcircuit) (st : list Qc) (k : mcompiled) (groups : list grp) (J units : nat) (rdef : Qc)
+  : list Qc :=
+  let tsize := if vec then units else 0%nat in
+  let cs := map (fun m => contrib_now tsize (length (vmemb c k (msrc m))) m
+                            (fun s => vval c st (nth s (vmemb c k (msrc m)) 0%nat) (msv m)))
+                (merged true J groups) in
+  map (fun u => input_of cs rdef u) (seq 0 units).
+
+(* the vector operator p of vector node j: per unit the input (edges, or the same unit's feeder outputs) *)
+Definition mvec_inputs (vec : bool) (c : mcircuit) (st : list Qc) (k : mcompiled) (groups : list grp) (j p : nat) : list Qc :=
+  let n0 := cached k j in
+  let mem_j := members (mvn k) j in
+  match ofeed (mop c n0 p) with
+  | [] => minputs vec c st k groups (voff c n0 + p) (length mem_j) (ordef (mop c n0 p))
+  | fd => map (fun n => qsum (map (fun p' => mvar_x c st n (fpos c n0 n p')) fd)) mem_j
+  end.
+
+Definition mimpl (vec : bool) (c : mcircuit) (st : list Qc) : list Qc :=
+  let k := mcompile vec c in
+  let groups := group_edges (vix c k) (vedges c) in
+  flat_map (fun n => map (fun o =>
+      let '(j, i) := mixn k n in
+      let n0 := cached k j in
+      let p := vpos c n0 n o in
+      (* state and parameter of unit i of the vector operator p: append_values / state packing by renamed key *)
+      peval (of_ (mop c n0 p)) (mvar_x c st n (fpos c n0 n p)) (mpar c n (fpos c n0 n p))
+            (nth i (mvec_inputs vec c st k groups j p) 0))
+    (seq 0 (mnops c n))) (seq 0 (length (mcnodes c))).
+
+Definition mwf (c : mcircuit) : bool :=
+  forallb (fun nd => (mncls nd <? length (mccls c)) && (length (mnames nd) =? length (cops c (mncls nd))) &&
+                     nodupb (mnames nd)) (mcnodes c) &&
+  forallb (fun l => forallb (fun op => forallb (fun p' => p' <? length l) (ofeed op)) l) (mccls c) &&
+  forallb (fun e => (mesrc e <? length (mcnodes c)) && (metgt e <? length (mcnodes c)) &&
+                    (meso e <? mnops c (mesrc e)) && (meto e <? mnops c (metgt e)) &&
+                    (match ofeed (mop c (metgt e) (meto e)) with [] => true | _ => false end)) (mcedges c).
